@@ -87,6 +87,13 @@ def operands():
     out.append(Opd('int', 'int', lambda: 2))
     out.append(Opd('float', 'float', lambda: 0.5))
     out.append(Opd('np.float64', 'np.float64', lambda: np.float64(1.5)))
+    # the scalar values code singles out (additive / multiplicative identity, as `sum()` and `prod` start from): same verdicts as any scalar
+    out.append(Opd('int=0', 'int', lambda: 0, tag='zero'))
+    out.append(Opd('int=1', 'int', lambda: 1))
+    out.append(Opd('float=0.0', 'float', lambda: 0.0, tag='zero'))
+    out.append(Opd('bool=False', 'int', lambda: False, tag='zero'))
+    out.append(Opd('np.int64=0', 'int', lambda: np.int64(0), tag='zero'))
+    out.append(Opd('np.float64=0.0', 'np.float64', lambda: np.float64(0.0), tag='zero'))
     out.append(Opd('vec2', 'ndarray', lambda: np.array([1.0, -2.0]), tag='vec2'))
     out.append(Opd('vec3', 'ndarray', lambda: np.array([1.0, -2.0, 0.5]), tag='vec3'))
     out.append(Opd('mat2x4', 'ndarray', lambda: np.arange(8.0).reshape(2, 4), tag='mat2x4'))
@@ -364,6 +371,8 @@ def _run_pair(ctx, L, R, alias):
         aug = opn.endswith('=') and opn not in ('==', '!=')
         if aug and (L.cls == 'list' or alias):
             continue        # list += <iterable> / list *= n is Python's own list semantics: the library is never consulted
+        if opn in ('/', '/=') and R.tag == 'zero':
+            continue        # division by zero is outside the property
         vd = verdict(L, R, opn[:-1] if aug else opn)
         triv = not (islib(L) or islib(R))
         ctx.case(cid, key=cid, trivial=triv)
